@@ -243,7 +243,9 @@ Theorem C04_prints_admitted_if_inv_preserved : forall D F,
                (labels (res_config (exec_run fuel pick Async D F (init_config p)))) C'.
 Proof. exact prints_admitted_partial. Qed.
 
-Theorem C04_alpha_init : forall p : program, α (init_config p) ≡ₚ sax_init p.
+Theorem C04_alpha_init : forall p : program,
+  (forall q pr, procs (init_config p) !! q = Some pr -> exists n, pr_provs pr = [n]) ->
+  α (init_config p) ≡ₚ sax_init p.
 Proof. exact alpha_init. Qed.
 
 Theorem C04_prints_admitted_checked : forall fuel pick D F c r,
@@ -253,6 +255,7 @@ Theorem C04_prints_admitted_checked : forall fuel pick D F c r,
 Proof. exact prints_admitted_checked. Qed.
 
 Theorem C04_prints_admitted_checked_init : forall fuel pick (p : program) r,
+  single_cfg_b (init_config p) = true ->
   exec_checked fuel pick (p_types p) (p_funs p) (init_config p) = Some r ->
   exec_run fuel pick Async (p_types p) (p_funs p) (init_config p) = r /\
   sax_steps (p_funs p) false (sax_init p) (labels (res_config r)) (α (res_config r)).
